@@ -105,6 +105,16 @@ CLAIMED["C05"] = dict(
     technique="contract-based deductive verification: symbolic execution of the real AST against spec functions + induction lemmas over an SMT datatype, z3",
     design="DESIGN.md §3 C05")
 
+CLAIMED["C08"] = dict(
+    text="Each encryption detector of the real code is proved equal to a spec predicate over an assumed container view (BIFF FILEPASS on "
+         "the record chain with loop invariant and variant, DOC FIB flag, OLE stream names, ZIP flag bit before any read, 7z AES coder "
+         "prefix, ODF manifest element, EPUB encryption.xml / rights.xml, PDF decrypt('') result) in both directions, and in 13 extractors "
+         "plus read_file every path to the first yield passes the detector and a positive result escapes as the encrypted error.",
+    note="Assumed: container views presented by olefile / zipfile / pypdf / ElementTree; an XML-name axiom; 'same content as the unencrypted "
+         "original' for empty-password PDFs only checked natively; record-chain spec = explicit chain only BOUNDED for short streams.",
+    technique="contract-based deductive verification: detector = spec predicate over assumed container views, typestate before first yield, z3 + AST dataflow",
+    design="DESIGN.md §3 C08")
+
 PENDING = {}
 
 ALL = [f"C{i:02d}" for i in range(1, 21)]
